@@ -4,7 +4,7 @@
    Mirrors:
      pkg/yqlib/format.go : FormatStringFromFilename, FormatFromString (over Gen.Formats, regenerated)
      cmd/utils.go : initCommand (format auto-detection, -p/-o interplay, unwrap default),
-                    configureEncoder / configureDecoder (a nil factory is CALLED before it is tested: panic)
+                    configureEncoder (a nil factory would be CALLED before it is tested: panic; every format has one) / configureDecoder (a format without decoder is an error)
      cmd/evaluate_sequence_command.go, cmd/evaluate_all_command.go : control flow to the exit status, -e, -n
      pkg/yqlib/stream_evaluator.go : EvaluateFiles / Evaluate / EvaluateNew
      pkg/yqlib/all_at_once_evaluator.go : EvaluateFiles
@@ -156,8 +156,8 @@ Definition csv_class (n : node) : enc_out :=
       match first with
       | NScalar _ _ => if csv_row_ok (first :: rest) then EncOk true else EncErr
       | NMap _ =>
-          (* encodeObjects: an error from the header row is swallowed (return nil) *)
-          if negb (csv_row_ok (map_keys first)) then EncOk false
+          (* encodeObjects: the header row (the keys of the first object) must be scalars *)
+          if negb (csv_row_ok (map_keys first)) then EncErr
           else if forallb (fun c => is_map c && csv_row_ok (csv_child_row (map_keys first) c)) (first :: rest)
                (* createChildRow looks the header keys up: values under other keys are left out *)
                then EncOk (forallb (fun c => forallb (fun k => existsb (key_eqb k) (map_keys first)) (map_keys c)) rest)
@@ -191,14 +191,9 @@ Definition scalar_only_class (n : node) : enc_out := if is_scalar n then EncOk t
 Definition string_only_class (n : node) : enc_out :=
   match n with NScalar TagStr _ => EncOk true | _ => EncErr end.
 
-(* NUL separated output: the printer hands the encoder a bytes.Buffer; the csv
-   writer and the xml encoder then buffer in their own bufio.Writer which nobody
-   flushes, so a sequence (csv/tsv) resp. a map (xml) produces no bytes *)
-Definition drop_when_nul (complete : bool) (fid : N) (n : node) : bool :=
-  if ((fid =? id_CSVFormat) || (fid =? id_TSVFormat)) && is_seq n && negb (match n with NSeq [] => true | _ => false end) then false
-  else if (fid =? id_XMLFormat) && is_map n && negb (match n with NMap [] => true | _ => false end) then false
-  else complete.
-
+(* NUL separated output (-0): the printer hands the encoder a bytes.Buffer; the
+   csv writer and the xml encoder flush their own buffered writer (since /repo
+   a492170), so the class of a result does not depend on -0 *)
 Definition enc_class (fid : N) (nul : bool) (n : node) : enc_out :=
   let base :=
     if (fid =? id_CSVFormat) || (fid =? id_TSVFormat) then csv_class n
@@ -208,17 +203,18 @@ Definition enc_class (fid : N) (nul : bool) (n : node) : enc_out :=
     else if (fid =? id_JSONFormat) || (fid =? id_PropertiesFormat) || (fid =? id_ShellVariablesFormat)
          then EncOk (negb (has_complex_key n))     (* a non-scalar key is printed as an empty name or dropped *)
     else EncOk true in
-  match base with
-  | EncOk c => EncOk (if nul then drop_when_nul c fid n else c)
-  | EncErr => EncErr
-  end.
+  base.
 
 (* printer.go printNode: the -e rule *)
-Definition false_name : str := [102; 97; 108; 115; 101].
+(* operator_booleans.go isTruthyNode: null is not; a boolean is iff it is spelled
+   y / yes / on / true in any case; everything else is *)
+Definition truthy_bool_text (v : str) : bool :=
+  let l := List.map lower v in
+  str_eqb l [121] || str_eqb l [121; 101; 115] || str_eqb l [111; 110] || str_eqb l [116; 114; 117; 101].
 Definition counts_as_match (n : node) : bool :=
   match n with
   | NScalar TagNull _ => false
-  | NScalar TagBool v => negb (str_eqb v false_name)
+  | NScalar TagBool v => truthy_bool_text v
   | _ => true
   end.
 
@@ -337,7 +333,7 @@ Definition run (c : cli) (w : world) : outcome :=
           match format_from_string inF with
           | None => fail_out p0                       (* configureDecoder: unknown -p *)
           | Some fi =>
-              if negb (fmt_has_decoder fi) then panic_out   (* format.DecoderFactory() on a nil func *)
+              if negb (fmt_has_decoder fi) then fail_out p0   (* configureDecoder: no support for this input format *)
               else
                 if no_input c then mkOut 0 [] [] false true     (* usage text, nothing evaluated *)
                 else
